@@ -98,6 +98,11 @@ func jpgoPath() string {
 	return "/verif/harness/bin/jpgo"
 }
 
+// bigCLIInput: valid JSON of a little more than n bytes with the values the expressions look at at the END.
+func bigCLIInput(n int) string {
+	return "{\"pad\":\"" + strings.Repeat("x", n) + "\",\"a\":12345,\"b\":[1,2,3]}"
+}
+
 func doCLI(mode, expr, input string) outcome {
 	if cliTmp == "" {
 		d, err := ioutil.TempDir("", "verif-cli-")
@@ -308,6 +313,12 @@ func init() {
 			return doTypedModel(f[1], f[2], f[3], f[4], f[5]), true
 		case f[0] == "Y" && len(f) == 5:
 			return doSlice(f[1], f[2], f[3], f[4]), true
+		case f[0] == "XB" && len(f) == 4:
+			e, e1 := unhexField(f[2])
+			n, e2 := strconv.Atoi(f[3])
+			if e1 == nil && e2 == nil && n >= 0 && n <= 64<<20 {
+				return doCLI(f[1], e, bigCLIInput(n)), true
+			}
 		case f[0] == "X" && len(f) == 4:
 			e, e1 := unhexField(f[2])
 			in, e2 := unhexField(f[3])
